@@ -354,6 +354,7 @@ func cmdRun(args []string) int {
 		go func(w int) {
 			defer wg.Done()
 			from := 0
+			lastDone, idle := -1, 0
 			for attempt := 0; attempt < 200; attempt++ {
 				wargs := []string{"worker", f.prop, "-tier", f.tier, "-seed", strconv.FormatInt(f.seed, 10), "-driver", f.driver,
 					"-budget", fmt.Sprint(f.budget), "-shard", fmt.Sprintf("%d/%d", w, nw), "-from", strconv.Itoa(from),
@@ -414,6 +415,7 @@ func cmdRun(args []string) int {
 						json.Unmarshal([]byte(rest[sp+1:]), &o)
 						add(k, &o)
 						current = -1
+						lastDone = k
 					case line == "END":
 						ended = true
 					}
@@ -425,11 +427,19 @@ func cmdRun(args []string) int {
 				}
 				// The worker died in case `current`.
 				if current < 0 {
+					// between two cases (start-up, or killed from outside): start again behind the
+					// last case that was completed; give up after three such deaths in a row
+					idle++
+					if idle <= 3 {
+						from = lastDone + 1
+						continue
+					}
 					mu.Lock()
 					res.WorkerError = "worker died outside a case: " + tail(stderr.String(), 2000)
 					mu.Unlock()
 					return
 				}
+				idle = 0
 				var data map[string]any
 				if f.replay == "" {
 					data = getCase(p, f, corpus, current)
